@@ -2,12 +2,17 @@ package run
 
 import (
 	"bytes"
+	"encoding/json"
+	"fmt"
 	"math/rand"
+	"sort"
+	"strings"
 
 	wire "github.com/jeroenrinzema/psql-wire"
 	"github.com/jeroenrinzema/psql-wire/pkg/buffer"
 
 	"verif/harness/mem"
+	"verif/harness/pgw"
 )
 
 // Play runs one abstract behaviour {cfg, steps} against the real server on a
@@ -22,6 +27,26 @@ import (
 // Every execution that is still open at the end is finished with an EOF, and
 // the server must then close the connection.
 func Play(beh M, rng *rand.Rand, proj *Projection) ([]M, error) {
+	return PlayMode(beh, rng, proj, 0)
+}
+
+// Segmentation modes for PlayMode: the client's bytes are the same, only the
+// way they reach the server differs.
+const (
+	SegPerMessage = 0 // one message per segment, waiting for the server in between (the default)
+	SegAllAtOnce  = 1 // the whole stream in one segment
+	SegPerByte    = 2 // one byte per segment
+	SegRandom     = 3 // random cuts
+	SegInHeaders  = 4 // a cut after every type byte and in the middle of every length field
+)
+
+// PlayMode is Play with a segmentation mode. In the stream modes (1-4) every
+// message is concretised first; a message's "send" event is logged when its
+// last byte is offered to the server.
+func PlayMode(beh M, rng *rand.Rand, proj *Projection, mode int) ([]M, error) {
+	if mode != SegPerMessage {
+		return playStream(beh, rng, proj, mode)
+	}
 	cfg := Sub(beh, "cfg")
 	if S(cfg, "limit") == "sym" {
 		cfg["_limit"] = SymLimits[rng.Intn(len(SymLimits))]
@@ -117,4 +142,131 @@ func Play(beh M, rng *rand.Rand, proj *Projection) ([]M, error) {
 	p.Finish()
 	out := append([]M{{"k": "cfg", "c": Clean(cfg)}}, p.Out...)
 	return out, nil
+}
+
+func playStream(beh M, rng *rand.Rand, proj *Projection, mode int) ([]M, error) {
+	cfg := Sub(beh, "cfg")
+	if S(cfg, "limit") == "sym" {
+		cfg["_limit"] = SymLimits[rng.Intn(len(SymLimits))]
+	}
+	x, err := NewExec(cfg)
+	if err != nil {
+		return nil, err
+	}
+	conn := x.Dial()
+	cz := &Concretiser{X: x, Rng: rng}
+	// the whole byte stream and, for every message, the offset of its last byte
+	var stream []byte
+	type msgEnd struct {
+		end int
+		m   M
+	}
+	var ends []msgEnd
+	eof := false
+	for _, sv := range L(beh, "steps") {
+		st := AsM(sv)
+		switch S(st, "k") {
+		case "send":
+			m := AsM(st["m"])
+			stream = append(stream, cz.Bytes(m)...)
+			ends = append(ends, msgEnd{len(stream), m})
+		case "eof":
+			eof = true
+		}
+		if eof {
+			break
+		}
+	}
+	cuts := map[int]bool{}
+	switch mode {
+	case SegPerByte:
+		for i := 1; i < len(stream); i++ {
+			cuts[i] = true
+		}
+	case SegRandom:
+		for i := 0; i < 1+len(stream)/40; i++ {
+			cuts[1+rng.Intn(len(stream))] = true
+		}
+	case SegInHeaders:
+		start := 0
+		for i, e := range ends {
+			if i == 0 { // startup packet: untyped
+				cuts[start+2] = true
+			} else {
+				cuts[start+1] = true
+				cuts[start+3] = true
+			}
+			start = e.end
+		}
+	}
+	conn.WaitQuiet(WaitTimeout) //nolint
+	last, next := 0, 0
+	for off := 1; off <= len(stream); off++ {
+		if off == len(stream) || cuts[off] {
+			var evs []mem.Ev
+			for next < len(ends) && ends[next].end <= off {
+				evs = append(evs, mem.Ev{"k": "send", "m": ends[next].m})
+				next++
+			}
+			if conn.ServerClosed() {
+				break
+			}
+			conn.Send(stream[last:off], evs...)
+			last = off
+		}
+	}
+	wedged := false
+	if _, err := conn.WaitQuiet(WaitTimeout); err != nil {
+		x.Log.Append(mem.Ev{"k": "wedged", "conn": conn.ID})
+		wedged = true
+	}
+	if !wedged && !conn.ServerClosed() {
+		conn.CloseClient()
+		if err := conn.WaitClosed(WaitTimeout); err != nil {
+			x.Log.Append(mem.Ev{"k": "wedged", "conn": conn.ID})
+		}
+	}
+	x.Shutdown()
+	x.Log.Append(mem.Ev{"k": "x-global", "conn": conn.ID, "m": paramsObj(x.Global)})
+	p := &Projector{Conn: conn.ID, Proj: proj, SkipPre: proj != nil && proj.SkipPreamble}
+	for _, e := range x.Log.Events() {
+		p.Feed(e)
+	}
+	p.Finish()
+	out := append([]M{{"k": "cfg", "c": Clean(cfg)}}, p.Out...)
+	return out, nil
+}
+
+// TranscriptDigest is the digest of everything the server did in an
+// execution: the messages it sent and the callbacks it made, in order (the
+// ParameterStatus block, whose order is that of a Go map, is sorted).
+func TranscriptDigest(evs []M) string {
+	var parts []string
+	var block []string
+	flush := func() {
+		sort.Strings(block)
+		parts = append(parts, block...)
+		block = nil
+	}
+	for _, e := range evs {
+		switch e["k"] {
+		case "recv":
+			b, _ := json.Marshal(e["m"])
+			if S(AsM(e["m"]), "t") == "S" {
+				block = append(block, string(b))
+				continue
+			}
+			flush()
+			parts = append(parts, string(b))
+		case "cb":
+			flush()
+			b, _ := json.Marshal(e["c"])
+			parts = append(parts, "cb"+string(b))
+		case "close", "wedged", "crash":
+			flush()
+			parts = append(parts, fmt.Sprint(e["k"]))
+		}
+	}
+	flush()
+	return pgw.Dig([]byte(strings.Join(parts, "\n")))
 }
